@@ -88,6 +88,7 @@ type Prov struct {
 	FuncVar  bool `json:",omitempty"` // Form func: declared as a package-level function variable, var NewX = func(...) ...
 	FuncVarType string `json:",omitempty"` // FuncVar: "" | named (type NewXFunc func(...); var NewX NewXFunc = ...) | alias (type NewXFunc = func(...))
 	ErrAlias bool `json:",omitempty"` // the error result is spelled Failure (type Failure = error)
+	Param0Name string `json:",omitempty"` // name of the first parameter (default a0)
 	CtxAlias bool `json:",omitempty"` // context.Context parameters are spelled Ctx (type Ctx = context.Context)
 	Variadic bool `json:",omitempty"` // last parameter is ...Elem(of slice type in Params)
 	Method   bool `json:",omitempty"` // Form ext: referenced as a method value of a package-level variable (pkg.Factory.Name)
